@@ -267,13 +267,16 @@ def applyChanges (us : List Nat) : List Change → Option (List Nat)
     | none => none
 
 /-- Guard of the agreement theorems: every intermediate buffer that is addressed by a ranged change
-uses `\n`/`\r\n` line ends (see `c14_counterexample_lone_cr` for why it is needed). -/
+uses `\n`/`\r\n` line ends (see `c14_counterexample_lone_cr` for why it is needed); a full-text
+change needs no guard. -/
+def lfChange (us : List Nat) : Change → Bool
+  | .full _ => true
+  | .range .. => lfOrCrlf us
+
 def lfChanges (us : List Nat) : List Change → Bool
   | [] => true
   | c :: cs =>
-    (match c with
-      | .full _ => true
-      | .range .. => lfOrCrlf us) &&
+    lfChange us c &&
     (match applyChange us c with
       | some us' => lfChanges us' cs
       | none => true)
@@ -315,13 +318,19 @@ def run (d : Option Doc) : List Event → Option (Option Doc)
     | some d' => run d' es
     | none => none
 
+/-- `lfChanges` for a change notification; other events need no guard. -/
+def lfEvent (d : Option Doc) : Event → Bool
+  | .didChange _ cs =>
+    match d with
+    | some doc => lfChanges doc.units cs
+    | none => true
+  | _ => true
+
 /-- Guard of `c14_history`: `lfChanges` for every change notification of the history. -/
 def lfHistory (d : Option Doc) : List Event → Bool
   | [] => true
   | e :: es =>
-    (match d, e with
-      | some doc, .didChange _ cs => lfChanges doc.units cs
-      | _, _ => true) &&
+    lfEvent d e &&
     (match step d e with
       | some d' => lfHistory d' es
       | none => true)
@@ -338,5 +347,13 @@ def encodeEvent : Impl.Event → Spec.Event
   | .didOpen v t => .didOpen v (encode16 t)
   | .didChange v cs => .didChange v (cs.map encodeChange)
   | .didClose => .didClose
+
+/-- The refinement relation of `c14_history`: the server's entry for the document agrees with the
+editor's copy — same text (as UTF-16 units), same version, open; a document the editor has closed
+(or never opened) is not open on the server. -/
+def Agree (srv : Option Impl.Doc) (ed : Option Spec.Doc) : Prop :=
+  match ed with
+  | some e => ∃ d, srv = some d ∧ encode16 d.text = e.units ∧ d.version = e.version ∧ d.isOpen = true
+  | none => ∀ d, srv = some d → d.isOpen = false
 
 end TrustVerif.C14
